@@ -279,3 +279,33 @@ Proof.
 Qed.
 
 End Content.
+
+Section LoadCurrent.
+Variable q_ok s_ok : Z -> bool.
+
+(** The snapshot a delivery runs is the registry state that is current at its load step - an
+    instant inside the delivery. *)
+Lemma load_reads_current s f s' f' es :
+  frame_ok s f -> fpc f = PDtPtr -> aborted (dt s) = false -> aborted (fb s) = false ->
+  Model.fstep q_ok s_ok s f = (s', f', es) ->
+  snap f' = Some (ptr (dt s)) /\ ran f' = ran f /\
+  pending f' = slot_acts (cur s) (sig_of (kind f)) /\ dhist s' = dhist s.
+Proof.
+  intros [Hok _] Hpc Had Haf Hs. unfold pc_ok in Hok. rewrite Hpc in Hok. destruct Hok as [_ [i Hv]].
+  unfold Model.fstep in Hs. rewrite Had, Haf, Hpc in Hs. simpl in Hs. rewrite Hv in Hs. unfold hstep in Hs. rewrite Had in Hs.
+  inversion Hs; subst. simpl. repeat split; auto. unfold pending. simpl. apply dispatch_next_pending.
+Qed.
+
+(** [snap] is written by the load step only. *)
+Lemma snap_preserved s f s' f' es :
+  Model.fstep q_ok s_ok s f = (s', f', es) -> fpc f <> PDtPtr -> snap f' = snap f.
+Proof.
+  unfold Model.fstep. destruct (aborted (dt s) || aborted (fb s)); [inversion 1; auto|].
+  destruct (fpc f) eqn:Hpc; try congruence; try hs; split_conds;
+    (let H := fresh in intro H; inversion H; subst; simpl; auto);
+    try (destruct (load_update_views f v (nth (ptr (dt s)) (dhist s) sd_init)) as (_ & _ & _)).
+  all: unfold load_update; destruct (kind f) as [|[sg tg|sg aid|sg]]; simpl; auto;
+    destruct (lookup sg _) as [sl|]; simpl; auto; [destruct (has_act _ _)|destruct (s_acts sl)]; simpl; auto.
+Qed.
+
+End LoadCurrent.
